@@ -1,7 +1,7 @@
 (* C15 round 3: model of vyper/ir/compile_ir.py:_IRnodeLowerer._step_r (IR -> assembly) for the node kinds
    literal, with-variable, EVM opcode, with, set, seq, pass, if (2/3), assert, assert_unreachable, the pseudo-ops
    le ge sle sge ne ceil32 and select, and (round 3b) the control-flow kinds repeat / break / continue / cleanup_repeat /
-   goto / djump / symbol / label / unique_symbol / exit_to (CodegenPanic) / sha3_64 / dload / dloadbytes; everything else is
+   goto / djump / symbol / label / unique_symbol / exit_to (CodegenPanic) / sha3_64 / dload / dloadbytes / data; everything else is
    declined (Err TypeErr).  No proofs here.
    State: the symbol counter of mksymbol, the shared revert label of _assert_false, existing_labels; `lh` is a ghost
    field (not part of the real lowerer): the stack height at which each generated label is placed (None: any height).
@@ -63,24 +63,35 @@ Definition push (x : Z) : list item :=
   let bs := bytes_of 33 x [] in
   Op ("PUSH" ++ nat_str (List.length bs)) :: map Imm bs.
 
-Record lst := { cnt : nat; revl : option string; labels : list string; lh : list (string * option nat) }.
+Record lst := { cnt : nat; revl : option string; labels : list string; lh : list (string * option nat);
+                dsegs : list (list item) }.   (* data_segments, most recent first *)
 Definition mksym (name : string) (ht : option nat) (s : lst) : string * lst :=
   let c := S (cnt s) in let l := (name ++ "_" ++ nat_str c)%string in
-  (l, {| cnt := c; revl := revl s; labels := labels s; lh := (l, ht) :: lh s |}).
+  (l, {| cnt := c; revl := revl s; labels := labels s; lh := (l, ht) :: lh s; dsegs := dsegs s |}).
 Definition assert_false (s : lst) : list item * lst :=
   match revl s with
   | Some l => ([PushLbl l; Op "JUMPI"], s)
   | None => let '(l, s1) := mksym "revert" None s in
-            ([PushLbl l; Op "JUMPI"], {| cnt := cnt s1; revl := Some l; labels := labels s1; lh := lh s1 |})
+            ([PushLbl l; Op "JUMPI"], {| cnt := cnt s1; revl := Some l; labels := labels s1; lh := lh s1; dsegs := dsegs s1 |})
   end.
 (* existing_labels *)
 Definition add_label (l : string) (s : lst) : res lst :=
   if existsb (String.eqb l) (labels s) then Err Raised
-  else Ok {| cnt := cnt s; revl := revl s; labels := l :: labels s; lh := lh s |}.
+  else Ok {| cnt := cnt s; revl := revl s; labels := l :: labels s; lh := lh s; dsegs := dsegs s |}.
 Definition start_nonzero (e : expr) : bool := match e with Lit 0 => false | _ => true end.
 Definition leaf_name (e : expr) : option string := match e with Var x => Some x | Node x [] => Some x | _ => None end.
 Definition has (x : string) (wa : list (string * nat)) : bool := match assoc x wa with Some _ => true | None => false end.
 Definition pass_ : expr := Node "pass" [].
+(* data: a header and bytes items (leaves, opaque here) or (symbol l) items *)
+Definition add_seg (seg : list item) (s : lst) : lst :=
+  {| cnt := cnt s; revl := revl s; labels := labels s; lh := lh s; dsegs := seg :: dsegs s |}.
+Fixpoint data_items (l : list expr) : option (list item) :=
+  match l with
+  | [] => Some []
+  | Var b :: t => option_map (cons (Opaque b)) (data_items t)
+  | Node sy [Var x] :: t => if String.eqb sy "symbol" then option_map (cons (DataLbl x)) (data_items t) else None
+  | _ => None
+  end.
 
 Definition unsupported {A} : res A := Err TypeErr.
 
@@ -278,6 +289,12 @@ Fixpoint lower (fuel : nat) (wa : list (string * nat)) (bd : option (string * st
           | _ => unsupported
           end
         else if String.eqb op "exit_to" then Err Raised
+        else if String.eqb op "data" then
+          match args with
+          | Var l :: items =>
+              match data_items items with Some its => Ok ([], add_seg (DataHdr l :: its) s) | None => unsupported end
+          | _ => unsupported
+          end
         else if String.eqb op "sha3_64" then
           match args with
           | [a; b] =>
@@ -308,5 +325,5 @@ Fixpoint lower (fuel : nat) (wa : list (string * nat)) (bd : option (string * st
 
 (* _IRnodeLowerer.compile_to_assembly for a tree without data segments *)
 Definition lower_top (e : expr) : res (list item) :=
-  '(a, s) <- lower 64 [] None 0 e {| cnt := 0; revl := None; labels := []; lh := [] |} ;;
+  '(a, s) <- lower 64 [] None 0 e {| cnt := 0; revl := None; labels := []; lh := []; dsegs := [] |} ;;
   Ok (a ++ [Op "STOP"] ++ match revl s with Some l => [Lbl l] ++ push 0 ++ [Op "DUP1"; Op "REVERT"] | None => [] end)%list.
